@@ -31,6 +31,8 @@ def main(argv):
         scripts += cs.gen(chk, 'racy', 'Par7', 150 * k, 80, seed + 12)
         scripts += cs.gen(chk, 'reorder', 'Par7', 100 * k, 80, seed + 13)
         scripts += cs.gen(chk, 'adversarial', 'Par14', 50 * k, 120, seed + 14)
+        scripts += cs.gen(chk, 'adversarial', 'Par7s4', 120 * k, 60, seed + 16)     # headers before the start block are stored without blocks
+        scripts += cs.gen(chk, 'reorder', 'Par7s4', 60 * k, 60, seed + 17)
     res = cs.run(chk, scripts, FORMULAS, models)
     # the two views (height -> hash, hash -> height) across 1000-header file boundaries: store-level batch at real scale
     if not chk.replay:
